@@ -30,6 +30,9 @@ CHECKS = {
  "C09": ("exploration", "bounded-exhaustive enumeration of documents over the schema's attribute set (every attribute singly, every boolean leaf flipped, every numeric leaf zeroed, full documents, multi-file inputs) x load option variants, each driven through render -> reload -> compare -> re-render on the real code",
          "Every service attribute of the schema is set in one of three full corpus documents (310 of 325 model fields are non-zero, measured by reflection; the rest are listed in the evidence). From them the check derives one document per attribute (and per second-level attribute of the nested blocks), one per boolean leaf flipped and one per numeric leaf zeroed, adds multi-file override/extends/include/profile inputs, loads each under normalisation {on,off} x path resolution {on,off}, renders YAML and JSON, reloads each rendering with the same directory/environment/name/options, compares name/services/networks/volumes/secrets/configs/extensions with go-cmp and requires the second rendering to be byte-identical.",
          "Trusted: go-cmp with EquateEmpty as the equality of the statement. Values outside the enumerated domains (e.g. strings needing YAML quoting beyond those in the corpus) are not covered.", "§4 C09", "E3 E5"),
+ "C20": ("exploration", "bounded-exhaustive enumeration of secret/config models (all source-kind vectors, canary shapes, reference patterns, delivery routes) x all rendering histories up to length 2/3 x derived and reloaded projects, each output searched for every canary",
+         "Every vector of source kinds for 1..3 secrets and 1..2 configs with at least one environment-sourced object, with unique canary values of 9 YAML-hostile shapes, referenced by a service, a build or nothing, delivered by the main file, an override or an include, is loaded; then every history of <=2 (3 thorough) renderings over {YAML, JSON} x {default, with secret content} is executed on the loaded project, on 6 derived projects and on the reloaded default rendering. Oracle per rendering: no canary (raw, per line, JSON/YAML-escaped) in default output; environment-sourced configs render their variable; with-content output decodes to exactly the canary; Content is on the project; the project is unchanged (including its behaviour in a later default rendering).",
+         "Trusted: substring search over raw / JSON-escaped / per-line forms as the definition of a leak.", "§4 C20", "E3 E5"),
 }
 
 NOT_YET = {}
